@@ -683,8 +683,8 @@ impl Analyzer {
                 };
                 if !is_rem {
 					self.push(next_statement.unwrap().range(), "Statements trailing ONERR GOTO on the same line are ignored", lsp::DiagnosticSeverity::WARNING);
-                    next_statement = next_statement.unwrap().next_named_sibling();
                 }
+                next_statement = next_statement.unwrap().next_named_sibling();
 			}
 		}
 		return Ok(Navigation::GotoChild);
